@@ -434,3 +434,50 @@ func H_C03_maps_and_misc() {
 		vAssert("bool-null-fields", err == nil && ok && g.B == b && g.S == "" && len(g.Bs) == 0 && g.I32 == x)
 	}
 }
+
+// H_C03_long_lists: lists longer than the direct-length forms, at lengths on both sides of every step by which
+// the decoder grows a list it is reading (16, 32, 64): fixed- and variable-length, typed and untyped renderings
+// decode to the same Go value as the encoder's own rendering.
+func H_C03_long_lists() {
+	n := []int{8, 15, 16, 17, 20, 31, 32, 33, 63, 64, 65, 129}[vChoice("n", 12)]
+	xs := make([]int32, n)
+	var elems []byte
+	for i := range xs {
+		xs[i] = int32(i % 40)
+	}
+	xs[n-1] = vInt32("x")
+	for i := range xs {
+		elems = append(elems, refInt(xs[i])...)
+	}
+	tm, nm := vExtract(xs)
+	typ := refStr(nm["[]int32"])
+	own, err := ToBytes(xs, nm)
+	vAssert("own-encodes", err == nil)
+	want, err := ToObject(own, tm)
+	w, okw := want.([]int32)
+	vAssert("own-decodes", err == nil && okw && eqInt32s(w, xs))
+	var alt []byte
+	typed := true
+	switch vChoice("form", 4) {
+	case 0:
+		alt = refCat([]byte{0x55}, typ, elems, []byte{'Z'})
+	case 1:
+		alt = refCat([]byte{'V'}, typ, refInt(int32(n)), elems)
+	case 2:
+		alt, typed = refCat([]byte{0x57}, elems, []byte{'Z'}), false
+	case 3:
+		alt, typed = refCat([]byte{0x58}, refInt(int32(n)), elems), false
+	}
+	got, err := ToObject(alt, tm)
+	vAssert("alt-decodes", err == nil)
+	if typed {
+		g, ok := got.([]int32)
+		vAssert("typed-same", ok && eqInt32s(g, xs))
+	} else {
+		g, ok := got.([]interface{})
+		vAssert("untyped-length", ok && len(g) == n)
+		last, okl := g[n-1].(int32)
+		first, okf := g[0].(int32)
+		vAssert("untyped-elements", okl && last == xs[n-1] && okf && first == xs[0])
+	}
+}
